@@ -50,6 +50,10 @@ class Proc:
             self.kill()
 
 
+# breaches of the pool users' contract (hook H5) seen in any session of this process: (breach text, tail of the session log)
+CONTRACT = []
+
+
 class DB:
     """A database directory plus a harness process; restartable."""
 
@@ -85,17 +89,30 @@ class DB:
         while r == "aborted" and retries > 0:
             self.naborted = getattr(self, "naborted", 0) + 1
             retries -= 1
+            time.sleep(0.002)
             r = self.cmd("sql " + text, timeout)
         return r
 
+    def collect_contract(self):
+        """ask the live harness process for recorded breaches of the pool users' contract (hook H5)"""
+        if self.proc is None or self.dead:
+            return
+        r = self.proc.ask("contract", 10)
+        if r and r.startswith("ok:") and r[3:]:
+            for b in r[3:].split("|")[:5]:
+                if len(CONTRACT) < 20:
+                    CONTRACT.append((b, "\n".join(l[:300] for l in self.log[-60:])))
+
     def restart_process(self):
         """Kill the harness process (a real crash: nothing flushed, files left as they are) and start a new one."""
+        self.collect_contract()
         if self.proc:
             self.proc.kill()
         self.proc = None
         self.log.append("#kill")
 
     def destroy(self):
+        self.collect_contract()
         if self.proc:
             self.proc.kill()
         if self.own:
